@@ -26,7 +26,11 @@ CLAIM = {
     "design_ref": "DESIGN.md section 6, C08",
 }
 
-THEOREMS = []
+THEOREMS = ["Okane.C08.C08_eval", "Okane.C08.C08_eval_mut", "Okane.C08.C08_typing", "Okane.C08.C08_typing_addsub",
+            "Okane.C08.C08_typing_mul", "Okane.C08.C08_typing_div_zero", "Okane.C08.C08_typing_div_amounts",
+            "Okane.C08.C08_typing_div_multi", "Okane.C08.C08_single", "Okane.C08.C08_posting", "Okane.C08.C08_amount",
+            "Okane.C08.C08_zero", "Okane.C08.C08_multi", "Okane.C08.checkAdd_corr", "Okane.C08.checkSub_corr",
+            "Okane.C08.checkMul_corr", "Okane.C08.checkDiv_corr"]
 
 POSITIONS = ["eval", "amount", "cost", "lot", "balance"]
 LEAVES = ["0", "2", "3 A", "5 B"]
@@ -345,9 +349,9 @@ def run(chk_):
         return
     quick = c.tier == "quick"
     cases = []   # (stream, pos, text, wellformed)
-    for e in corpus_cases():
+    for e, ewf in corpus_cases():
         for p in POSITIONS:
-            cases.append(("corpus", p, e, False))
+            cases.append(("corpus", p, e, ewf))
     small = []
     for l in LEAVES + ["-2", "-3 A", "-0", "-5 B"]:
         small.append(l)
@@ -429,6 +433,7 @@ def run(chk_):
                     inexact = inexact or Track.inexact
                 else:
                     pv2 = ref if known is None or not re.search(r"[0-9.] ?[E-Zac-z]", text) else None
+                    inexact = inexact or "/" in text     # intermediate rounding is not visible in the final value
                 if pv2 is not None and pv2[0] in ("num", "com", "err"):
                     want = convert(pos, pv2)
                     if want[0] == "err":
